@@ -264,7 +264,9 @@ fn main() {
                 "C04" => { let (n, f) = sweeps::sweep_c04(tier, seed); total += n; fails.extend(f); }
                 "C05" => { let (n, f) = sweeps::sweep_c05(tier, seed); total += n; fails.extend(f); }
                 "C07" => { let (n, f) = sweeps::sweep_c07(tier, seed); total += n; fails.extend(f); }
-                "C08" => { let (n, f) = sweeps::sweep_c08(tier, seed); total += n; fails.extend(f); }
+                "C08" => { let (n, f) = sweeps::sweep_c08(tier, seed); total += n; fails.extend(f);
+                           // "the 8-bit pre-filter can produce false candidates but never lose a hit": the scanner is where it is used
+                           if unit.is_empty() || unit.starts_with("scan_") { for w in ["next", "max"] { let r = sweep_scan(w, tier, seed); total += r.0; if let Some(f) = r.1 { fails.push(f); } } } }
                 "C09" | "C10" => { let (n, f) = sweeps::sweep_c09(tier, seed); total += n; fails.extend(f.into_iter().filter(|x| (pid == "C10") == x.contains("_rc\""))); }
                 "C16" => { let (n, f) = sweeps::sweep_c16(tier, seed); total += n; fails.extend(f); }
                 "C19" => { let (n, f) = sweeps::sweep_c19(tier, seed); total += n; fails.extend(f); }
